@@ -129,6 +129,7 @@ func NewStream(
 			}
 		}
 
+		verifhook.At("cs.teardown.beforeCancel", id)
 		cancel()
 	}
 
